@@ -24,6 +24,8 @@ type baselineInfo struct {
 	scenario   *sim.Scenario
 	writes     int
 	calls      int
+	writeCalls int
+	sync       map[string]map[string]interface{}
 	terminal   bool
 	quiescent  bool
 	projection map[string]interface{}
@@ -36,16 +38,20 @@ var (
 	c06baselines = map[string]*baselineInfo{}
 )
 
-func c06dims(env *core.Env) (B, K1, K2, K3 int) {
+// dims: baselines, crash points (over committed writes), write-call faults (over write calls), read/any-call faults
+// (over all calls), multi-fault plans.
+func c06dims(env *core.Env) (B, K1, K2, K2r, K3 int) {
 	if env.Thorough() {
-		return 40, 220, 420, 110
+		return 18, 260, 600, 2600, 60
 	}
-	return 6, 40, 60, 10
+	return 6, 120, 60, 12, 6
 }
 
 func c06Scenario(env *core.Env, b int) *sim.Scenario {
 	rng := rand.New(rand.NewSource(env.Seed*7919 + int64(b)*104729 + 5))
-	return GenFor("C06", rng)
+	// every workload kind / rolling style is among the baselines of every tier
+	all := append(append([]string{}, distinctFamilies()...), ExtraFamilies...)
+	return genForFamily("C06", rng, all[b%len(all)])
 }
 
 func cloneScenario(s *sim.Scenario) *sim.Scenario {
@@ -73,7 +79,8 @@ func c06Baseline(env *core.Env, b int) *baselineInfo {
 	if err != nil {
 		bi.err = err.Error()
 	} else {
-		bi.writes, bi.calls = r.CtrlWrites(), r.CtrlCalls()
+		bi.writes, bi.calls, bi.writeCalls = r.CtrlWrites(), r.CtrlCalls(), r.CtrlWriteCalls()
+		bi.sync = m.SyncPoints
 		bi.terminal, bi.quiescent = r.Terminal, r.Quiescent
 		bi.projection = m.Projection(r.W.Store.Snapshot())
 		for _, v := range vs {
@@ -90,8 +97,8 @@ func c06Baseline(env *core.Env, b int) *baselineInfo {
 func init() {
 	core.Register(&core.Check{
 		ID: "C06", Level: "fault_enumeration", ChunkSize: 1, Relevant: "faults_fired",
-		Rule: "cases = baseline scenario b (seed-determined closed-loop scenario incl. exit events) x fault f: a crash after the k-th controller write (k spread evenly over all controller writes of the baseline; every write in the thorough tier), an error / timeout / conflict / lost-response at the j-th controller call (j spread over all calls, kinds rotating), or a random multi-fault plan. " +
-			"Each faulty run is judged against the fault-free baseline of the same scenario: monitors (C01-C05, C09-C11, C18) that were silent in the baseline stay silent, the terminal state is still reached within the budget, the final user-visible projection equals the baseline's. distinct = (scenario family, fault kind, faulted actor/verb/kind site).",
+		Rule: "cases = baseline scenario b (seed-determined closed-loop scenario incl. exit events) x fault f: a crash after the k-th controller write (k spread evenly over all controller writes of the baseline; every write in the thorough tier), an error / conflict / lost-response / timeout at the j-th controller WRITE call (every write call of the baseline at least once in the quick tier, with all four kinds in the thorough tier), an error / timeout at the j-th call of any verb (spread over all calls), or a random multi-fault plan. " +
+			"Each faulty run is judged against the fault-free baseline of the same scenario: monitors (C01-C05, C09-C11, C18) that were silent in the baseline stay silent, the terminal state is still reached within the budget, the configuration projection (workload strategy, ReplicaSet minReadySeconds, HPA target, Service selectors, routes, BatchRelease cursor, canary Deployments) at the first time each step is persisted as paused equals the baseline's at the same point, and the final user-visible projection equals the baseline's. distinct = (scenario family, fault kind, faulted actor/verb/kind site).",
 		Assumptions: []string{
 			"crash = CrashSignal panic right after a committed controller write; all reconcilers are rebuilt, grace and creation expectations reset, queues dropped, every object replayed as a create event",
 			"faults are injected into controller actors only (never into environment actors, the user or informer-cache reads)",
@@ -99,16 +106,16 @@ func init() {
 			"replays are deterministic up to Go map iteration order and wall-clock effects inside the code under test",
 		},
 		NumCases: func(env *core.Env) int {
-			B, K1, K2, K3 := c06dims(env)
-			return B * (K1 + K2 + K3)
+			B, K1, K2, K2r, K3 := c06dims(env)
+			return B * (K1 + K2 + K2r + K3)
 		},
 		RunCase: c06Case,
 	})
 }
 
 func c06Case(env *core.Env, idx int) *core.CaseResult {
-	B, K1, K2, K3 := c06dims(env)
-	K := K1 + K2 + K3
+	B, K1, K2, K2r, K3 := c06dims(env)
+	K := K1 + K2 + K2r + K3
 	b, f := idx/K, idx%K
 	_ = B
 	res := &core.CaseResult{}
@@ -134,9 +141,35 @@ func c06Case(env *core.Env, idx int) *core.CaseResult {
 		}
 		fp.CrashAfterWrite = k
 	case f < K1+K2:
+		// the j-th write call of the controllers fails; with K2 >= 4 x write calls every call meets every kind
 		j := f - K1
-		kind = []string{"error", "timeout", "conflict", "lost"}[j%4]
-		fp.FailCall = 1 + j*bi.calls/K2
+		kinds := []string{"error", "conflict", "lost", "timeout"}
+		if K2 >= 4*bi.writeCalls && bi.writeCalls > 0 {
+			if j >= 4*bi.writeCalls {
+				res.Count("fault_points_beyond_baseline", 1)
+				return res
+			}
+			fp.FailWriteCall, kind = 1+j/4, kinds[j%4]
+		} else if K2 >= bi.writeCalls && bi.writeCalls > 0 {
+			// every write call once (kind rotating with the call), the remainder a second kind
+			fp.FailWriteCall = 1 + j%bi.writeCalls
+			kind = kinds[(j%bi.writeCalls+j/bi.writeCalls)%4]
+		} else {
+			fp.FailWriteCall, kind = 1+j*bi.writeCalls/K2, kinds[j%4]
+		}
+		fp.FailKind = kind
+	case f < K1+K2+K2r:
+		j := f - K1 - K2
+		kind = []string{"error", "timeout"}[j%2]
+		fp.FailCall = 1 + j*bi.calls/K2r
+		if K2r >= bi.calls {
+			// every call of the baseline
+			if j >= bi.calls {
+				res.Count("fault_points_beyond_baseline", 1)
+				return res
+			}
+			fp.FailCall = 1 + j
+		}
 		fp.FailKind = kind
 	default:
 		kind = "multi"
@@ -209,6 +242,20 @@ func c06Case(env *core.Env, idx int) *core.CaseResult {
 		}
 		res.Violate(fmt.Sprintf("c06:%s:not-terminal:%s:%s/%s:%s", kind, strings.ReplaceAll(cls, " ", "-"), s.Kind, s.Style, st), fmt.Sprintf("the fault-free run reaches its terminal state, the run with fault %v does not (%s)", r.InjectedFaults, r.StopReason), detail(nil))
 		return res
+	}
+	// (2b) the same configuration at the same logical points (first time step k is persisted as paused)
+	if kind != "multi" && !affectedByKnown {
+		for key, want := range bi.sync {
+			got, ok := m.SyncPoints[key]
+			if !ok {
+				continue
+			}
+			res.Count("sync_points_compared", 1)
+			if d := gen.FirstDiff("", want, got); d != "" {
+				res.Violate(fmt.Sprintf("c06:%s:half-configured:%s:%s/%s", kind, normPath(d), s.Kind, s.Style), fmt.Sprintf("when %s is first reached the configuration differs from the fault-free run at %s, after fault %v", key, d, r.InjectedFaults), detail(gen.NF{"at": key, "baseline": want, "got": got}))
+				break
+			}
+		}
 	}
 	// (3) same final projection
 	if bi.terminal && bi.quiescent && r.Terminal && r.Quiescent && kind != "multi" && !affectedByKnown {
